@@ -11,6 +11,13 @@
 //!     kind 0 DuplexStream, 1 Braid, 2 client Stream / server Stream, 3 kind 2 + double TokioIo bridge on A,
 //!     4 unix socketpair in Braid, 5 tcp loopback in Braid (kinds 4,5: kernel buffers, `cap` is ignored)
 //!   obs: `<res>*`
+//! `st prog <kind> <cap> ; <transfer>* ; <close a|b|ab|->`     two tasks, one per side, each running its part of the transfers in order
+//!     transfer: `<a|b><len>.<write chunk>.<read buffer>.<flush after every write 0|1>`: that side writes `len` pattern bytes
+//!     (`write` until all are taken, `flush` at the end - and after every chunk with the flag), the other side reads until it has them;
+//!     close: the named sides shut down at the end and the other side reads to the end of the stream
+//!     kinds 0-5 as for `pipe`; 6 = TLS over a DuplexStream(cap): client `Stream::tls` (handshake driven lazily by the first
+//!     operation) and the server `Stream` from the TLS acceptor; 7 = the same with both handshakes finished first
+//!   obs: per transfer `ok | short<got> | bad<offset> | E | stuck`, then `eof=<ok|extra<n>|E|stuck|->` per closing side
 use crate::rng::Rng;
 use crate::sniff::{hex, parse_evs, show_evs, unhex, Ev};
 use hyper::rt::{Read as HRead, Write as HWrite};
@@ -251,8 +258,137 @@ async fn run_pipe(kind: usize, cap: usize, ops: &[&str]) -> String {
     out.join(" ")
 }
 
+pub fn pat(i: usize, j: usize) -> u8 { ((i * 31 + j * 7 + j / 251) % 256) as u8 }
+
+struct Transfer { from_a: bool, len: usize, wchunk: usize, rbuf: usize, flush_each: bool }
+
+async fn run_prog(kind: usize, cap: usize, transfers: Vec<Transfer>, close: &str) -> String {
+    use hyperdriver::stream::Braid;
+    use hyperdriver::stream::tls::TlsHandshakeStream as _;
+    use hyperdriver::server::conn::AcceptExt as _;
+    use tokio::io::{AsyncReadExt, AsyncWriteExt};
+    let (a, b): (BoxIo, BoxIo) = match kind {
+        0 => { let (a, b) = DuplexStream::new(cap); (BoxIo(Box::pin(a)), BoxIo(Box::pin(b))) }
+        1 => { let (a, b) = DuplexStream::new(cap); (BoxIo(Box::pin(Braid::from(a))), BoxIo(Box::pin(Braid::from(b)))) }
+        2 => { let (a, b) = DuplexStream::new(cap);
+               (BoxIo(Box::pin(hyperdriver::client::conn::stream::Stream::from(a))), BoxIo(Box::pin(hyperdriver::server::conn::Stream::from(b)))) }
+        3 => { let (a, b) = DuplexStream::new(cap);
+               let a = hyperdriver::client::conn::stream::Stream::from(a);
+               (BoxIo(Box::pin(TokioIo::new(TokioIo::new(a)))), BoxIo(Box::pin(hyperdriver::server::conn::Stream::from(b)))) }
+        4 => { let (a, b) = hyperdriver::stream::UnixStream::pair().unwrap(); (BoxIo(Box::pin(Braid::from(a))), BoxIo(Box::pin(Braid::from(b)))) }
+        5 => {
+            let l = tokio::net::TcpListener::bind("127.0.0.1:0").await.unwrap();
+            let addr = l.local_addr().unwrap();
+            let (c, s) = tokio::join!(tokio::net::TcpStream::connect(addr), tokio::net::TcpListener::accept(&l));
+            let (s, peer) = s.unwrap();
+            (BoxIo(Box::pin(Braid::from(hyperdriver::stream::TcpStream::client(c.unwrap())))),
+             BoxIo(Box::pin(Braid::from(hyperdriver::stream::TcpStream::server(s, peer)))))
+        }
+        _ => {
+            crate::tls::install();
+            let (client, incoming) = hyperdriver::stream::duplex::pair();
+            let acceptor = hyperdriver::server::conn::Acceptor::from(incoming).with_tls(Arc::new(crate::tls::server_config("good", "-")));
+            let Ok((cio, mut sio)) = tokio::try_join!(client.connect(cap), acceptor.accept()) else { return "bad-input".into() };
+            let mut conn = hyperdriver::client::conn::Stream::from(cio).tls("example.com", Arc::new(crate::tls::client_config("-")));
+            if kind == 7 && tokio::try_join!(conn.finish_handshake(), sio.finish_handshake()).is_err() { return "handshake-failed".into(); }
+            (BoxIo(Box::pin(conn)), BoxIo(Box::pin(sio)))
+        }
+    };
+    let transfers = Arc::new(transfers);
+    let n = transfers.len();
+    // per transfer the reader's verdict; per side the verdict on the end of the stream
+    let results: Arc<Mutex<Vec<Option<String>>>> = Arc::new(Mutex::new(vec![None; n]));
+    let eofs: Arc<Mutex<[Option<String>; 2]>> = Arc::new(Mutex::new([None, None]));
+    let side = |mut io: BoxIo, is_a: bool| {
+        let (transfers, results, eofs, close) = (transfers.clone(), results.clone(), eofs.clone(), close.to_string());
+        async move {
+            for (i, t) in transfers.iter().enumerate() {
+                if t.from_a == is_a {
+                    let data: Vec<u8> = (0..t.len).map(|j| pat(i, j)).collect();
+                    let mut off = 0;
+                    while off < data.len() {
+                        let end = (off + t.wchunk.max(1)).min(data.len());
+                        match io.write(&data[off..end]).await { Ok(0) | Err(_) => return, Ok(k) => off += k }
+                        if t.flush_each && io.flush().await.is_err() { return; }
+                    }
+                    if io.flush().await.is_err() { return; }
+                } else {
+                    let mut got = 0usize;
+                    let mut buf = vec![0u8; t.rbuf.max(1)];
+                    let mut verdict = None;
+                    while got < t.len {
+                        let want = buf.len().min(t.len - got);
+                        match io.read(&mut buf[..want]).await {
+                            Err(_) => { verdict = Some("E".to_string()); break; }
+                            Ok(0) => { verdict = Some(format!("short{got}")); break; }
+                            Ok(k) => {
+                                if let Some(x) = (0..k).find(|x| buf[*x] != pat(i, got + x)) { verdict = Some(format!("bad{}", got + x)); break; }
+                                got += k;
+                            }
+                        }
+                    }
+                    let stop = verdict.is_some();
+                    results.lock().unwrap()[i] = Some(verdict.unwrap_or("ok".into()));
+                    if stop { return; }
+                }
+            }
+            // A shuts down (if asked to) and then reads to the end of B's stream (if that closes); B first reads to the end of A's
+            // stream and then shuts down - one after the other: a TLS shutdown writes an alert, and two sides that both write and
+            // neither reads can block each other on a small pipe
+            let me = if is_a { 'a' } else { 'b' };
+            let other = if is_a { 'b' } else { 'a' };
+            async fn read_end(io: &mut BoxIo) -> String {
+                use tokio::io::AsyncReadExt;
+                let mut buf = [0u8; 16];
+                let mut extra = 0;
+                loop { match io.read(&mut buf).await { Err(_) => break "E".to_string(), Ok(0) => break if extra == 0 { "ok".to_string() } else { format!("extra{extra}") }, Ok(k) => extra += k } }
+            }
+            if is_a {
+                if close.contains(me) && io.shutdown().await.is_err() { return; }
+                if close.contains(other) { let v = read_end(&mut io).await; eofs.lock().unwrap()[1] = Some(v); }
+            } else {
+                if close.contains(other) { let v = read_end(&mut io).await; eofs.lock().unwrap()[0] = Some(v); }
+                if close.contains(me) && io.shutdown().await.is_err() { return; }
+            }
+            // keep the stream alive until the peer is done with it
+            tokio::time::sleep(std::time::Duration::from_secs(3600)).await;
+        }
+    };
+    let (ta, tb) = (tokio::spawn(side(a, true)), tokio::spawn(side(b, false)));
+    // done when every verdict is in; a deadlock shows as the time limit (virtual time for the in-memory kinds: instantly)
+    let limit = tokio::time::Instant::now() + std::time::Duration::from_secs(20);
+    loop {
+        let done = results.lock().unwrap().iter().all(|r| r.is_some()) && { let e = eofs.lock().unwrap(); (!close.contains('a') || e[0].is_some()) && (!close.contains('b') || e[1].is_some()) };
+        if done || tokio::time::Instant::now() >= limit || (ta.is_finished() && tb.is_finished()) { break; }
+        tokio::time::sleep(std::time::Duration::from_millis(5)).await;
+    }
+    ta.abort(); tb.abort();
+    let rs: Vec<String> = results.lock().unwrap().iter().map(|r| r.clone().unwrap_or("stuck".into())).collect();
+    let e = eofs.lock().unwrap();
+    let ev = |c: char, i: usize| if close.contains(c) { e[i].clone().unwrap_or("stuck".into()) } else { "-".into() };
+    format!("{} ; eof={} eof={}", rs.join(" "), ev('a', 0), ev('b', 1))
+}
+
 pub fn run(toks: &[&str]) -> String {
     match toks.first().copied() {
+        Some("prog") if toks.len() >= 4 => {
+            let kind: usize = toks[1].parse().unwrap_or(0);
+            let cap: usize = toks[2].parse().unwrap_or(16);
+            let parts = split_semi(&toks[3..]);
+            if parts.len() != 3 || parts[2].len() != 1 { return "bad-input".into(); }
+            let mut transfers = vec![];
+            for t in &parts[1] {
+                let from_a = t.starts_with('a');
+                let f: Vec<usize> = t[1..].split('.').filter_map(|x| x.parse().ok()).collect();
+                if f.len() != 4 || !(t.starts_with('a') || t.starts_with('b')) { return "bad-input".into(); }
+                transfers.push(Transfer { from_a, len: f[0], wchunk: f[1], rbuf: f[2], flush_each: f[3] == 1 });
+            }
+            let close = parts[2][0];
+            let mut b = tokio::runtime::Builder::new_current_thread();
+            b.enable_all();
+            if kind < 4 || kind >= 6 { b.start_paused(true); }
+            b.build().unwrap().block_on(run_prog(kind, cap.max(1), transfers, close))
+        }
         Some("script") => { SCRIPTED.with(|w| w.set(true)); let r = run_script(&toks[1..]); SCRIPTED.with(|w| w.set(false)); r }
         Some("pipe") if toks.len() >= 4 => {
             let kind: usize = toks[1].parse().unwrap_or(0);
@@ -268,7 +404,27 @@ pub fn run(toks: &[&str]) -> String {
 // ---- generators
 fn rand_bytes(r: &mut Rng, n: u64) -> Vec<u8> { (0..n).map(|_| r.below(256) as u8).collect() }
 
+fn gen_prog(r: &mut Rng, i: u64) -> String {
+    let kind = match i % 10 { 0 | 1 | 2 => 6, 3 | 4 => 7, 5 => r.range(4, 5), _ => r.below(4) };
+    let cap = if kind == 4 || kind == 5 { 1_000_000 } else { *r.pick(&[1u64, 3, 16, 64, 1024, 1024, 65536]) };
+    // TLS: records do not fit a pipe of a few bytes at once, which is fine, but the handshake over it takes thousands of polls
+    let cap = if kind >= 6 && cap < 16 { 16 } else { cap };
+    let n = r.range(1, 5);
+    let mut ts = vec![];
+    // who speaks first matters (a lazily driven handshake is started by a read or by a write)
+    for _ in 0..n {
+        let side = if r.chance(1, 2) { 'a' } else { 'b' };
+        let len = match r.below(6) { 0 => r.range(1, 8), 1 | 2 => r.range(9, 600), 3 => r.range(601, 5000), _ => r.range(5001, 40000) };
+        let wchunk = if len > 2000 { *r.pick(&[64u64, 1000, 16384, 100000]) } else { *r.pick(&[1u64, 7, 64, 1000, 100000]) };
+        let rbuf = if len > 2000 { *r.pick(&[64u64, 512, 4096, 100000]) } else { *r.pick(&[1u64, 5, 64, 4096]) };
+        ts.push(format!("{side}{len}.{wchunk}.{rbuf}.{}", r.chance(1, 4) as u8));
+    }
+    let close = *r.pick(&["-", "a", "b", "ab", "ab"]);
+    format!("prog {kind} {cap} ; {} ; {close}", ts.join(" "))
+}
+
 pub fn gen(r: &mut Rng, i: u64) -> String {
+    if i % 9 == 4 { return gen_prog(r, i / 9); }
     if i % 3 == 2 {
         // real pipes; kernel-socket kinds are rarer (slower)
         let kind = if i % 30 == 29 { r.range(4, 5) } else { r.below(4) };
